@@ -72,4 +72,6 @@ def sa_engine(register_assumed: bool = False):
             dbapi_conn.create_function("strpos", 2, _strpos)
             dbapi_conn.create_function("concat", -1, _concat)
     samodels.Base.metadata.create_all(eng)
+    from . import sa2
+    sa2.Base.metadata.create_all(eng)
     return eng
